@@ -5,7 +5,7 @@ import io
 import itertools
 import warnings
 
-from mc import lit, recs
+from mc import envleg, lit, recs
 from mc.obs import obs
 from mc.report import Run, jhash
 from mc.space import explore
@@ -16,7 +16,8 @@ RULE = ("per field type T: record with fields (T x, T[] xs) [and a keyword-named
         "with construct / _replace / init_from_dict / grouped routed assignment / decode (stream, JSON) probes after every step; "
         "invariant per state: slot is None, the empty default, or an instance of the declared class (elements too), timestamps aware, "
         "text is str; a raising operation leaves the record unchanged; an accepting one leaves it serialisable; listed "
-        "unrepresentable values must be rejected. states = distinct slot observations; non-trivial = history with an accepted value")
+        "unrepresentable values must be rejected; typed values of one type offered to every other list type after use in their own; "
+        "depth-1 histories repeated in child interpreters under FLOW_RECORD_TZ / FLOW_RECORD_IGNORE settings. states = distinct slot observations; non-trivial = history with an accepted value")
 
 V = "valid"
 R = "must-reject"
@@ -244,9 +245,67 @@ def run_twins(case):
     return {"ev": 1, "h": h, "nt": True, "out": "twins:%s" % ("ok" if not viol else "bad"), "viol": viol}
 
 
+# already-typed values of one field type offered to a field / list of ANOTHER type: (literal, {other type: must-reject})
+FOREIGN = [
+    ("ft.uint32(70000)", {"uint16": R, "boolean": R, "net.tcp.Port": R, "bytes": R}),
+    ("ft.uint32(5)", {"boolean": R, "bytes": R}),
+    ("ft.varint(2**40)", {"uint16": R, "uint32": R, "boolean": R, "net.tcp.Port": R, "bytes": R}),
+    ("ft.varint(-1)", {"uint16": R, "uint32": R, "boolean": R, "net.tcp.Port": R, "bytes": R}),
+    ("ft.string('not an address')", {"net.ipaddress": R, "net.ipnetwork": R, "bytes": R}),
+    ("ft.string('1.2.3.4/24')", {"net.ipaddress": R, "bytes": R}),
+    ("ft.uri('text')", {"bytes": R, "net.ipaddress": R}),
+    ("ft.float(1.5)", {"bytes": R}),
+    ("ft.boolean(1)", {"bytes": R}),
+    ("ft.bytes(b'raw')", {}),
+    ("ft.net.tcp.Port(80)", {"boolean": R, "bytes": R}),
+    ("fip('9.9.9.9')", {"bytes": R}),
+    ("posix_path('/t')", {"bytes": R}),
+    ("ft.datetime(2020,1,1)", {"bytes": R}),
+]
+FOREIGN_HOME = {"ft.uint32": "uint32", "ft.varint": "varint", "ft.string": "string", "ft.uri": "uri", "ft.float": "float", "ft.boolean": "boolean", "ft.bytes": "bytes",
+                "ft.net.tcp.Port": "net.tcp.Port", "fip": "net.ipaddress", "posix_path": "path", "ft.datetime": "datetime"}
+
+
+def run_cross(case):
+    """One process-level history: a typed value is first stored where it belongs (home[] and home), then offered to a list and a
+    scalar field of another type. The second step must convert or refuse exactly as it does in a fresh process."""
+    h = jhash(case)
+    spec, home, other, expect = case["cross"]
+    viol = []
+    desc = recs.descriptor("f/cross", [[home + "[]", "hs"], [other + "[]", "os"], [other, "o"]])
+    gen = lit.ev("dt(2020,1,1,tz=UTC)")
+    rec = desc.recordType(_generated=gen)
+    outs = []
+    for fname, vspec in (("hs", "[%s]" % spec), ("os", "[%s]" % spec), ("o", spec), ("os", "[%s, %s]" % (spec, spec))):
+        before = obs(rec)
+        try:
+            setattr(rec, fname, lit.ev(vspec))
+            exc = None
+        except Exception as e:  # noqa: BLE001
+            exc = e
+        if exc is not None:
+            outs.append("cross:rejected")
+            if obs(rec) != before:
+                viol.append(("C05:failed-assignment-changed-record:%s<-%s" % (other, home), case, {"field": fname}))
+            continue
+        outs.append("cross:accepted")
+        if fname != "hs" and expect == R:
+            viol.append(("C05:not-rejected:%s:typed-%s-value" % (other, home), case, {"field": fname, "stored": repr(getattr(rec, fname))[:80]}))
+        slot_invariant(rec, "typed-%s-value" % home, case, viol)
+        err, data = serialisable(rec)
+        if err is not None:
+            viol.append(("C05:accepted-but-unserialisable:%s<-%s:%s" % (other, home, type(err).__name__), case, {"field": fname, "error": repr(err)[:200]}))
+    seen = set()
+    return {"ev": 4, "h": h, "nt": True, "out": sorted(set(outs)), "viol": [v for v in viol if not (v[0] in seen or seen.add(v[0]))]}
+
+
 def run_case(case):
     from flow.record import GroupedRecord
 
+    if case.get("env") and not envleg.in_env(case):
+        return envleg.run_single("checks.c05", case)
+    if case.get("cross"):
+        return run_cross(case)
     if case.get("twins"):
         return run_twins(case)
     if "wire" in case:
@@ -357,9 +416,19 @@ def cases(tier, seed):
     # element classes that share a Python class name (tcp.port / udp.port; ipaddress / IPAddress): both list forms in one process
     for pair in (["net.tcp.Port", "net.udp.Port"], ["net.udp.Port", "net.tcp.Port"], ["net.ipaddress", "net.IPAddress"], ["string", "wstring"], ["varint", "filesize"]):
         yield {"t": pair[0], "twins": pair, "events": []}
+    # typed values of one type offered to lists / fields of every other type, after they were stored in their own list
+    for spec, rej in FOREIGN:
+        home = FOREIGN_HOME[spec.split("(")[0]]
+        for other in LIST_TYPES:
+            if other != home:
+                yield {"t": other, "cross": [spec, home, other, rej.get(other, W)], "events": []}
     # hostile wire values: a stream / JSON line from elsewhere carrying what the type cannot represent
     for t, wire in WIRE:
         yield {"t": t, "wire": wire, "events": []}
+
+
+ENVS = [{"FLOW_RECORD_TZ": "NONE"}, {"FLOW_RECORD_TZ": "Europe/Amsterdam"}, {"FLOW_RECORD_IGNORE": "_generated,x,xs"},
+        {"FLOW_RECORD_TZ": "none", "FLOW_RECORD_IGNORE": "x"}, {"FLOW_RECORD_TZ": "America/St_Johns"}]
 
 
 def main(tier, seed, workers=None):
@@ -372,6 +441,10 @@ def main(tier, seed, workers=None):
         return case
 
     explore(run, cases(tier, seed), lambda c: run_case(normalise(c)), workers, chunk=64, reversed_pass=(tier == "thorough"))
+    # the library under its two import-time environment settings: all depth-1 histories, the cross and the wire cases
+    shallow = [c for c in cases("quick", seed) if len(c["events"]) <= 1]
+    for env in ENVS if tier == "thorough" else ENVS[:3]:
+        envleg.explore_env(run, "checks.c05", shallow, env, workers)
     run.states = max(1, len(run.state_hashes))
     run.transitions = run.extra.get("assignment_events", 0)
     run.traces = run.transitions
